@@ -115,6 +115,7 @@ def main(argv=None):
     canary_ok = []
     fn_results = []
     suppressed = []
+    lemma_ids = []
     for u, (gen, res, cres) in results.items():
         solver_time[u] = dict(wall_s=round(res.get("wall_s", 0), 2), smt_s=round(res.get("solver_time_s", 0), 2))
         for x in res["undecided"]:
@@ -166,6 +167,14 @@ def main(argv=None):
                 if iid not in failed_items and res["status"] in ("verified", "failed"):
                     discharged += 1
         fn_results.extend(dict(unit=u, **f) for f in res["functions"] if f["time_s"] > 0.5)
+        # property-level lemmas (spec/<prop>_lemmas.rs): each is one obligation over the contracts above
+        for f in res["functions"]:
+            nm = f["function"].split("::")[-1]
+            if nm.startswith(f"lemma_{prop.lower()}_"):
+                obligations += 1
+                lemma_ids.append(nm)
+                if f["success"] and res["status"] in ("verified", "failed"):
+                    discharged += 1
 
     # bounded stand-ins / witness search (E2)
     standin_report = None
@@ -234,6 +243,7 @@ def main(argv=None):
         checker_cmd=f"verus build/<unit>.rs --output-json --time --multiple-errors 20 (units: {', '.join(cfg['units'])}; regenerated from {REPO} on this run) + canary run per unit",
         trusted_base=trusted_base,
         clause_ids=sorted(set(clause_ids)),
+        property_lemmas=sorted(set(lemma_ids)),
         functions_under_contract=functions_under_contract,
         assumed_items=trusted_items,
         rewrites_applied=_rule_summary(rules),
